@@ -33,6 +33,14 @@ def _worker(args):
                 except Exception as e:  # noqa
                     item["witness"] = None
                     item["witness_error"] = repr(e)
+                w = item.get("witness")
+                if w and w.get("clause") and not eng.reg.contracts[key].get("no_replay"):
+                    try:
+                        from pyvc.replay import replay_witness
+                        w["replay"] = replay_witness(eng.reg, w, w["clause"], w["tag"])
+                        w["replayed"] = bool(w["replay"].get("replayed"))
+                    except BaseException as e:  # noqa
+                        w["replay"] = dict(replayed=False, reason="replay harness error: " + repr(e))
             obs.append(item)
         rep["obligations"] = obs
         rep["trivial"] = [list(x) for x in rep.get("trivial", [])]
